@@ -147,6 +147,15 @@ func (w *hsWorld) drainAccept() int {
 	}
 }
 
+// drainAcceptFail: nothing may be waiting in the accept queue.
+func (w *hsWorld) drainAcceptFail(port uint16, why string) {
+	if ep := w.acceptOne(); ep != nil {
+		w.Fail("connection-without-handshake", "", "Accept returned a connection for %d->80 after %s", port, why)
+		ep.Close()
+		w.Settle()
+	}
+}
+
 func fl(t *codec.TCP) string {
 	s := ""
 	for i, n := range []string{"F", "S", "R", "P", "A"} {
@@ -219,6 +228,34 @@ func (w *hsWorld) passive(sub uint64) {
 	case 2:
 		w.Advance(time.Duration(r.Range(1, 900)) * time.Millisecond)
 		p.Mine(w.Take())
+	}
+	if !w.cfg.Cookie && !twin && r.Chance(0.12) {
+		// a second SYN with another sequence number while the first handshake is half open: whatever the
+		// stack makes of it, a listener never opens a connection of its own (no bare SYN from the listening
+		// port), and a SYN-ACK "answering" such a SYN yields no connection
+		w.Probes["second_syn_with_another_sequence_number"]++
+		p.TSOn = false
+		iss2 := p.ISS + uint32(r.Range(1000, 1<<30))
+		p.Send(codec.FlagSYN, iss2, 0, 65535, opts, nil)
+		var bare *codec.TCP
+		for _, t := range p.Mine(w.Take()) {
+			if t.Flags&(codec.FlagSYN|codec.FlagACK|codec.FlagRST) == codec.FlagSYN {
+				bare = t
+			}
+		}
+		if bare != nil {
+			w.Fail("syn-from-listener", "", "after two different SYNs from %d the listening port sent a SYN of its own (seq=%d, no ACK): a passive open turned into an active one", p.PPort, bare.Seq)
+			return
+		}
+		w.Advance(time.Duration(r.Range(0, 1500)) * time.Millisecond)
+		for _, t := range p.Mine(w.Take()) {
+			if t.Flags&(codec.FlagSYN|codec.FlagACK|codec.FlagRST) == codec.FlagSYN {
+				w.Fail("syn-from-listener", "", "after two different SYNs from %d the listening port sent a SYN of its own (seq=%d, no ACK)", p.PPort, t.Seq)
+				return
+			}
+		}
+		w.drainAcceptFail(p.PPort, "two different SYNs and no ACK at all")
+		return
 	}
 	if w.acceptOne() != nil {
 		w.Fail("accept-before-ack", "", "Accept returned a connection for %d->80 before any ACK of the SYN-ACK was sent", p.PPort)
@@ -490,10 +527,28 @@ func (w *hsWorld) active(sub uint64) {
 		if d == 0 {
 			d = 1
 		}
-		p.Send(codec.FlagSYN|codec.FlagACK, p.ISS, iss+1+d, 65535, myOpts, nil)
+		// the wrong acknowledgement comes on a SYN-ACK or on a segment without SYN (bare ACK, data, FIN):
+		// while the SYN is outstanding every one of them is a handshake segment acknowledging something else
+		what := "SYN-ACK"
+		switch r.Pick(5, 2, 2, 2) {
+		case 0:
+			p.Send(codec.FlagSYN|codec.FlagACK, p.ISS, iss+1+d, 65535, myOpts, nil)
+		case 1:
+			what = "bare ACK"
+			p.Send(codec.FlagACK, p.ISS+1, iss+1+d, 65535, nil, nil)
+		case 2:
+			what = "data segment"
+			p.Send(codec.FlagACK|codec.FlagPSH, p.ISS+1, iss+1+d, 65535, nil, []byte("early"))
+		default:
+			what = "FIN-ACK"
+			p.Send(codec.FlagACK|codec.FlagFIN, p.ISS+1, iss+1+d, 65535, nil, nil)
+		}
+		if what != "SYN-ACK" {
+			w.Probes["active_wrong_ack_without_syn"]++
+		}
 		rep := p.Mine(w.Take())
 		if connected() {
-			w.Fail("active-open-on-wrong-ack", "", "active open (iss=%d) completed on a SYN-ACK acknowledging %d", iss, iss+1+d)
+			w.Fail("active-open-on-wrong-ack", "", "active open (iss=%d) completed on a %s acknowledging %d", iss, what, iss+1+d)
 			return
 		}
 		nrst := 0
@@ -501,12 +556,12 @@ func (w *hsWorld) active(sub uint64) {
 			if t.Flags&codec.FlagRST != 0 {
 				nrst++
 				if t.Seq != iss+1+d {
-					w.Fail("reset-wrong-seq", "", "SYN-ACK acknowledging %d answered by reset with sequence number %d", iss+1+d, t.Seq)
+					w.Fail("reset-wrong-seq", "", "%s acknowledging %d answered by reset with sequence number %d", what, iss+1+d, t.Seq)
 				}
 			}
 		}
 		if nrst != 1 {
-			w.Fail("wrong-ack-not-reset", "", "SYN-ACK acknowledging %d instead of %d was answered by %d resets", iss+1+d, iss+1, nrst)
+			w.Fail("wrong-ack-not-reset", "", "%s acknowledging %d instead of %d (SYN outstanding) was answered by %d resets", what, iss+1+d, iss+1, nrst)
 		}
 	case 2: // reset acknowledging the SYN: connection refused, never answered
 		w.Probes["active_refused"]++
